@@ -50,7 +50,7 @@ CONSTANTS Variant,   \* "conn": federation.Conn.CollectionGet   "legacy": contro
           Modes,     \* subset of {"pdh", "uuid"}
           MaxHist
 
-VARIABLES cfg, ans, gaveup, done,  \* contract ghost state
+VARIABLES cfg, ans, asked, gaveup, done,  \* contract ghost state
           plan,      \* backend -> "match" | "mismatch" | "s404" | "s5xx" | "hang"
           home,      \* uuid mode: backend chosen by the UUID prefix (0 local/unknown prefix)
           pc,        \* "start" | "lwait" | "lcheck" | "fan" | "collect" | "returned"
@@ -63,7 +63,7 @@ VARIABLES cfg, ans, gaveup, done,  \* contract ghost state
           hist
 
 C == INSTANCE FedFetchContract
-cvars == <<cfg, ans, gaveup, done>>
+cvars == <<cfg, ans, asked, gaveup, done>>
 ivars == <<plan, home, pc, st, got, errchan, first, nrecv, all404, cancelled>>
 vars  == <<cvars, ivars, hist>>
 view  == <<cvars, ivars>>
